@@ -112,13 +112,15 @@ def _mk(shape, n_inf):
         calls[idx] += 1
         if sum(idx) % 4 == 0:
             return zero
+        if sum(idx) % 7 == 3:
+            return None  # any object is a legitimate element value, the Python object None included
         return ("v",) + idx
 
     S = BlockSeries(eval=ev, shape=tuple(shape), n_infinite=n_inf)
     box = tuple(shape) + (MAXO + 1,) * n_inf
     dense = np.empty(box, dtype=object)
     for idx in itertools.product(*[range(b) for b in box]):
-        dense[idx] = None if sum(idx) % 4 == 0 else ("v",) + idx
+        dense[idx] = None if sum(idx) % 4 == 0 else NONE_VALUE if sum(idx) % 7 == 3 else ("v",) + idx
     return S, dense, calls
 
 
@@ -175,18 +177,24 @@ def _mk_recursive(shape, n_inf):
     return S, dense, calls
 
 
-def _norm(x):
+NONE_VALUE = "<the Python object None as an element value>"
+
+
+def _norm(x, lib=False):
+    """`lib`: x comes from the library, where None is a genuine element value (the reference array writes it as
+    NONE_VALUE and uses None for absent elements)."""
     from pymablock.series import zero
 
+    nv = (lambda v: NONE_VALUE if v is None else v) if lib else (lambda v: v)
     if isinstance(x, tuple) and x and x[0] == "EXC":
         return x
     if isinstance(x, np.ma.MaskedArray):
-        return ("arr", x.shape, tuple(None if m else v for v, m in zip(x.data.flat, np.ma.getmaskarray(x).flat)))
+        return ("arr", x.shape, tuple(None if m else nv(v) for v, m in zip(x.data.flat, np.ma.getmaskarray(x).flat)))
     if isinstance(x, np.ndarray):
-        return ("arr", x.shape, tuple(x.flat))
+        return ("arr", x.shape, tuple(nv(v) for v in x.flat))
     if x is zero:
         return None
-    return x
+    return nv(x)
 
 
 def _apply(obj, item):
@@ -206,8 +214,8 @@ def _compare(S, dense, item, counters, what):
         counters["wrong_count"] += 1
     got = _apply(S, item)
     counters["expressions"] += 1
-    if _norm(exp) != _norm(got):
-        raise Violation(f"{what}: S[{item}] = {_norm(got)} but numpy gives {_norm(exp)}")
+    if _norm(exp) != _norm(got, lib=True):
+        raise Violation(f"{what}: S[{item}] = {_norm(got, lib=True)} but numpy gives {_norm(exp)}")
     if isinstance(exp, tuple) and exp and exp[0] == "EXC":
         counters["index_errors_agreed"] += 1
     elif isinstance(got, np.ma.MaskedArray) and np.ma.getmaskarray(got).any():
